@@ -404,7 +404,8 @@ func c03One(text, fam string) (*core.Viol, bool) {
 }
 
 // interning histories: order independence of formatting w.r.t. what was parsed before in the process
-var c03HistInputs = []string{"a", `"a"`, "`a`", "// a", "/* a */", "1", `"1"`, "0x1", "if", `"if"`, "a = 1 // a\nb", "x /* a */ y"}
+var c03HistInputs = []string{"a", `"a"`, "`a`", "// a", "/* a */", "1", `"1"`, "0x1", "if", `"if"`, "a = 1 // a\nb", "x /* a */ y",
+	"1_000", "1000", "1.5", "1.50", "01", "x = 7_654_321", "7654321", `"a\n"`, "`a\n`", "0b1", "1e3", "1E3"}
 
 func c03Format(text string) string {
 	r := parseText([]byte(text), false)
